@@ -1,8 +1,14 @@
 pub mod c01;
 pub mod c02;
+pub mod c03;
+pub mod c04;
+pub mod c05;
+pub mod c06;
 pub mod c07;
 pub mod c08;
+pub mod c11;
 pub mod c18;
+pub mod tools_sm2;
 
 use crate::mon::Ctx;
 
@@ -12,8 +18,13 @@ pub fn run(prop: &str, ctx: &mut Ctx, extra: &[String]) -> bool {
     match prop {
         "C01" => c01::run(ctx),
         "C02" => c02::run(ctx),
+        "C03" => c03::run(ctx),
+        "C04" => c04::run(ctx),
+        "C05" => c05::run(ctx),
+        "C06" => c06::run(ctx),
         "C07" => c07::run(ctx),
         "C08" => c08::run(ctx),
+        "C11" => c11::run(ctx),
         "C18" => c18::run(ctx),
         _ => return false,
     }
@@ -24,6 +35,19 @@ pub fn run(prop: &str, ctx: &mut Ctx, extra: &[String]) -> bool {
 pub fn tool(args: &[String]) {
     match args.first().map(|s| s.as_str()) {
         Some("zuc-zero-search") => c08::tool_zero_search(16, 3, 3),
+        Some("selftest") => {
+            let t = std::time::Instant::now();
+            for (n, ok) in crate::refs::sm9::selftest(true) {
+                println!("{} {}", if ok { "ok  " } else { "FAIL" }, n);
+            }
+            println!("sm9 selftest {:.2}s", t.elapsed().as_secs_f64());
+            let t = std::time::Instant::now();
+            for (n, ok) in crate::refs::sm2::selftest() {
+                println!("{} {}", if ok { "ok  " } else { "FAIL" }, n);
+            }
+            println!("sm2 selftest {:.2}s", t.elapsed().as_secs_f64());
+        }
+        Some("sm2-search") => tools_sm2::search(16, 2, 2),
         _ => eprintln!("unknown tool"),
     }
 }
